@@ -154,7 +154,7 @@ def r15(ctx):
     setter = f"{ES}::set_next_holder_commit_num"
     tsetter = f"{ES}::set_next_holder_commit_num_for_testing"
     R.who_may_write(ctx, "R1.5", "EnforcementState", "next_holder_commit_num",
-                    {setter: "the checked setter", tsetter: "test utility (feature test_utils)"}, floor=2,
+                    {setter: "the checked setter", tsetter: "test utility (feature test_utils)"}, floor=1,
                     borrows_allowed={})
     # constructions
     for b, bi, si, s in R.constructions(ctx.prog, ES):
